@@ -345,6 +345,7 @@ func (l c14) Exec(env *core.Env) *core.Result {
 					}
 				}
 				err := cache.Set(ctx, op.Str(0), values[e.Val].bundle)
+				rt.Yield("returned") // a process that crashed meanwhile (a goroutine of its own met the crash) reports nothing
 				if err != nil {
 					e.Outcome, e.Err = "err", err.Error()
 					if t.FaultsSeen == before {
@@ -368,6 +369,7 @@ func (l c14) Exec(env *core.Env) *core.Result {
 					}
 				}
 				b, err := cache.Get(ctx, op.Str(0))
+				rt.Yield("returned") // a process that crashed meanwhile (a goroutine of its own met the crash) reports nothing
 				switch {
 				case err == nil && b != nil && b.BaseCRL != nil:
 					e.Outcome = "hit"
